@@ -24,7 +24,8 @@ def raw_index_readers(facts):
 
 def has_tombstone_filter(c, call):
     """The result of `call` flows through filter(|id| !<...>.is_empty()) in its method chain."""
-    for m in chain_up(c, call):
+    from .common import value_chain
+    for m in value_chain(c, call):
         if m["name"] in ("filter", "filter_map", "retain", "take_while"):
             for a in m["args"]:
                 if a.get("k") == "closure":
@@ -429,11 +430,8 @@ def rule_r6(facts, rep, rid="C04-R6"):
         okm = False
         for x in fb.walk(mg.body):
             if x.get("k") == "mcall" and x["name"] in ("extend", "insert", "union") and (fb.callee(x) or "").startswith(("std::collections::HashSet::", "std::collections::hash::set::HashSet::", "std::iter::Extend::extend", "std::collections::BTreeSet::", "std::vec::Vec::")):
-                r = x["recv"]
-                names = []
-                while r is not None and r.get("k") == "mcall":
-                    names.append(r["name"])
-                    r = r["recv"]
+                from .common import recv_chain
+                names, r = recv_chain(c, x["recv"])
                 if "entry" in names and any(n_.startswith("or_") for n_ in names) and self_field(r) == fld:
                     # the values come from the other index's same-named field
                     src = set()
